@@ -933,7 +933,10 @@ def _r6(repo, L, m, ba):
             if len(apps) != 1:
                 ok, why = False, f"a build scaffold is appended {len(apps)} times"
             else:
-                a0 = norm(apps[0].args[0]) if apps[0].args else ""
+                from ..util import resolve_on_path as _rop
+
+                i0 = next(i for i, c in path_calls(p, lambda c: c is apps[0]))
+                a0 = norm(_rop(p, i0, apps[0].args[0])) if apps[0].args else ""
                 if a0 not in (sv, f"{sv}.to_scaffold()"):
                     ok, why = False, f"'{a0}' is appended instead of the scaffold itself"
         else:
